@@ -90,5 +90,11 @@ def run_case(rng, tier, case):
             case.check('split.index_in_range', int(m.index.min()) >= 0 and int(m.index.max()) < n, n=n, imax=int(m.index.max()))
             case.check('split.steps_on_original_grid', int(m['time_step'].min()) >= 0 and int(m['time_step'].max()) < T, T=T,
                        tmax=int(m['time_step'].max()))
+        # the interval problems themselves are problems the portfolio produced: their own mapping must describe their own variables
+        for k, sub in enumerate(r.op.ops):
+            mk = sub.mapping
+            if mk is not None and len(mk):
+                case.check('split.interval_problem_mapping_in_range', int(mk.index.min()) >= 0 and int(mk.index.max()) < len(sub.c), interval=k, n=len(sub.c),
+                           imin=int(mk.index.min()), imax=int(mk.index.max()))
     case.event('asset_setup', rec.counts['asset_setup']); case.event('portfolio_setup', rec.counts['portfolio_setup'])
     case.nontrivial = n_assets_with_vars >= 2 and nodal >= 1
